@@ -1078,7 +1078,7 @@ class Decoder:
 # engine
 # --------------------------------------------------------------------------------------------
 class Engine:
-    def __init__(self, irm, max_steps=2000000, max_paths=100000, timeout=None, query_timeout_ms=60000, conc_cap=64, stubs=None):
+    def __init__(self, irm, max_steps=2000000, max_paths=100000, timeout=None, query_timeout_ms=60000, conc_cap=64, stubs=None, int_mode=False):
         self.irm = irm; self.dec = Decoder(irm)
         self.fns = irm.decoded
         if not getattr(irm, '_prepared', False):
@@ -1088,8 +1088,12 @@ class Engine:
         self.trace_throw = bool(os.environ.get('IRSYM_TRACE_THROW'))
         self.inputs = None          # concrete replay: name -> list of values (vs_* return them instead of fresh symbols)
         self.inpos = {}
-        self.solver = z3.Solver()
-        self.solver.set('timeout', query_timeout_ms)
+        if int_mode:
+            import irsym_int
+            self.solver = irsym_int.IntSolver(query_timeout_ms)
+        else:
+            self.solver = z3.Solver()
+            self.solver.set('timeout', query_timeout_ms)
         self.spc = []
         self.work = []
         self.violations = []
